@@ -1476,3 +1476,15 @@ TWINS = [
      lambda s: s.replace(" as h5,", " as h5_in,").replace(
          "src_h5file=h5,", "src_h5file=h5_in,")),
 ]
+
+# mutants that re-introduce the repaired defects (apply to the fixed tree)
+MUTANTS = list(MUTANTS) + [
+    ("table attributes dropped (F08a returns)",
+     "dclab/rtdc_dataset/copier.py",
+     ("                dst_tab.attrs[akey] = src_tab.attrs[akey]\n",
+      "                pass\n"), "R8.1"),
+    ("empty dataset dereferenced (F08b returns)",
+     "dclab/rtdc_dataset/copier.py",
+     ("if dst is not None and scalar_feature_exists(feat):",
+      "if scalar_feature_exists(feat):"), "R8.6"),
+]
